@@ -183,7 +183,82 @@ inductive Elem where
       -- `Multiband_amplifier`: `params.bands` (seen by find_elements_common_range) and the first band of every
       -- amplifier in dict order (used by `__call__`)
   | other                            -- Transceiver, Roadm, Fused, Fiber, RamanFiber: channel set untouched
-deriving Repr
+deriving Repr, DecidableEq
+
+/-! ### how a multiband element is BUILT (json_io.network_from_json, Multiband_amplifier.__init__,
+network.set_egress_amplifier) -/
+
+/-- `parameters.find_band_name`: the default band whose window holds the centre frequency
+(`LBAND` 187–189 THz is tried first, then `CBAND` 191.3–196.0 THz); `2·centre = f_min + f_max` -/
+def bandName (b : Band) : String :=
+  if 2 * 187000000000000 ≤ b.fmin + b.fmax ∧ b.fmin + b.fmax ≤ 2 * 189000000000000 then "LBAND"
+  else if 2 * 191300000000000 ≤ b.fmin + b.fmax ∧ b.fmin + b.fmax ≤ 2 * 196000000000000 then "CBAND"
+  else "unknown_band"
+
+/-- `json_io._update_band` for a `multi_band` library entry: the bands of its member amplifiers, duplicates removed
+(first occurrence kept) -/
+def dedupBands : List Band → List Band
+  | [] => []
+  | b :: r => b :: (dedupBands r).filter (fun x => x != b)
+
+/-- state of `Multiband_amplifier.__init__` while it walks its `amplifiers` list: `params.bands` and the `amplifiers`
+dict (band name → first band of that amplifier, insertion order) -/
+structure MbState where
+  bands : List Band
+  amps : List (String × Band)
+
+/-- one amplifier of the list: a band name already present is `ParametersError('… more than one amp defined for the
+same band')` (here: `Err.value`); an unknown band is appended to `params.bands` -/
+def mbStep (s : MbState) (band : Band) : Except Err MbState :=
+  let name := bandName band
+  if s.amps.any (fun kv => kv.1 == name) then .error .value
+  else if s.bands.contains band then .ok { s with amps := s.amps ++ [(name, band)] }
+  else .ok { bands := s.bands ++ [band], amps := s.amps ++ [(name, band)] }
+
+def mbFold (s : MbState) : List Band → Except Err MbState
+  | [] => .ok s
+  | b :: r =>
+    match mbStep s b with
+    | .ok s' => mbFold s' r
+    | .error e => .error e
+
+/-- `network_from_json` + `Multiband_amplifier.__init__`.
+`libBands` = `bands` of the library entry of the element's `type_variety` (`none` for an untyped element: `params.bands`
+starts empty); `ampBands` = the single band (`EdfaParams`: `[{f_min, f_max}]`) of every amplifier listed by the
+element, in list order – for a typed element WITHOUT an `amplifiers` list the loader creates one amplifier per band of
+the library entry. -/
+def loadBands0 : Option (List Band) → List Band
+  | some l => l
+  | none => []
+
+def loadAmps : Option (List Band) → List Band → List Band
+  | some l, [] => l
+  | _, a => a
+
+def loadMultiband (libBands : Option (List Band)) (ampBands : List Band) : Except Err Elem :=
+  match mbFold { bands := loadBands0 libBands, amps := [] } (loadAmps libBands ampBands) with
+  | .ok s => .ok (.multiband s.bands (s.amps.map (fun kv => kv.2)))
+  | .error e => .error e
+
+/-- `{find_band_name(e): e for e in per_degree_design_bands[oms]}`: a later band of the same name replaces the value,
+the key keeps its first position -/
+def designDict : List Band → List (String × Band)
+  | [] => []
+  | b :: r =>
+    let d := designDict r
+    -- python builds left to right; written from the right: `b` comes first unless a later band has the same name, in
+    -- which case the later value wins but the position is `b`'s
+    match d.lookup (bandName b) with
+    | some v => (bandName b, v) :: d.filter (fun kv => kv.1 != bandName b)
+    | none => (bandName b, b) :: d
+
+/-- `set_egress_amplifier` on a multiband element: with no amplifier yet, one `Edfa` per design band (keyed by band
+name, in the order of the f_min-sorted design bands); every amplifier then receives the variety selected for it –
+`sel name` = `[f_min, f_max]` of that variety –; finally `node.params.bands = [a.params.bands[0] for a in amplifiers]` -/
+def designMultiband (existing : List String) (designBands : List Band) (sel : String → Band) : Elem :=
+  let names := if existing.isEmpty then (designDict designBands).map (fun kv => kv.1) else existing
+  let bands := names.map sel
+  .multiband bands bands
 
 /-- `Edfa.__call__`: demux on the first band; nothing selected is a ValueError -/
 def edfaCall (bands : List Band) (sp : List Ch) : Except Err (List Ch) :=
